@@ -289,7 +289,8 @@ pub fn worker(ctx: &mut Ctx) {
             }
             // variants: as listed; for lower-case entries also Capitalised / UPPER (sampled); sentence frames (sampled)
             let mut variants: Vec<(String, usize, usize, &str)> = vec![(text.clone(), 0, w.len(), "listed")];
-            if is_lower && (r0 >> 3) % 4 == 0 {
+            let non_ascii = w.iter().any(|c| !c.is_ascii());
+            if is_lower && ((r0 >> 3) % 4 == 0 || non_ascii) {
                 let mut cap = w.clone();
                 if let Some(f) = cap.first_mut() {
                     let up: Vec<char> = f.to_uppercase().collect();
@@ -390,7 +391,15 @@ pub fn worker(ctx: &mut Ctx) {
         let single = doc.get_tokens().iter().any(|tk| tk.span.start == ws && tk.span.end == we && matches!(tk.kind, TokenKind::Word(_)));
         if single {
             let (d, lg) = &mut groups[gi];
+            let first_pass = lg.lint(&doc);
+            // second pass: the suggestions now come out of the word cache
             let lints = lg.lint(&doc);
+            for l in spelling(&first_pass) {
+                check_suggestions(&mut ctx.report, l, *d, &t);
+            }
+            if crate::lintmon::sorted_keys(&first_pass) != crate::lintmon::sorted_keys(&lints) {
+                ctx.report.finding("C06", "second-pass-differs", t.len(), || json!({"text": t, "dialect": dialect_name(*d)}), || "linting the same text twice with one spell checker gives different lints".to_string());
+            }
             let sp = spelling(&lints);
             let hit = sp.iter().any(|l| l.span.start == ws && l.span.end == we);
             if !hit {
@@ -412,6 +421,34 @@ pub fn worker(ctx: &mut Ctx) {
             }
             ctx.end_case();
         }
+    }
+    // 3. words tagged with one dialect, checked under the other dialects, twice each (the second
+    //    pass is a word-cache hit): every suggestion must belong to the active dialect
+    let tagged: Vec<&Vec<char>> = words.iter().filter(|w| dict.get_word_metadata(w).and_then(|m| m.dialect).is_some() && w.iter().all(|c| c.is_alphabetic())).collect();
+    for (i, w) in tagged.iter().enumerate() {
+        if !ctx.mine(i as u64) {
+            continue;
+        }
+        let own = dict.get_word_metadata(w).and_then(|m| m.dialect);
+        let t = format!("The {} is here.", s(w));
+        for (d, lg) in groups.iter_mut() {
+            if Some(*d) == own {
+                continue;
+            }
+            let doc = Document::new(&t, &PlainEnglish, &dict);
+            for pass in 0..2 {
+                ctx.report.evaluations += 1;
+                let lints = lg.lint(&doc);
+                for l in spelling(&lints) {
+                    check_suggestions(&mut ctx.report, l, *d, &t);
+                }
+                let _ = pass;
+            }
+            ctx.report.nontrivial(fnv_mix(fnv(t.as_bytes()), 1000 + *d as u64));
+        }
+    }
+    if ctx.shard == 0 {
+        ctx.report.count("dialect_tagged_words", tagged.len() as u64);
     }
     let _ = BTreeMap::<u8, u8>::new();
 }
